@@ -7,10 +7,11 @@ from vf import core
 from vf.core import CorrResult, Failure
 from . import kalman_common as kc
 from . import kalman_sessions as ks
+from translator import measblock as trm
 
 ID = "C03"
 PROPS = "props/C03.v"
-GENERATED: list = []
+GENERATED = [trm.OUT]
 CASE_DEPS = ["lib/MatOps.vo", "model/Kalman.vo", "lib/KalmanCase.vo", "model/KalmanSession.vo", "lib/KalmanSessionCase.vo"]
 ALLOWED_AXIOMS: set = set()          # the theorems are closed under the global context
 TRUSTED = [
@@ -67,6 +68,10 @@ MANIFEST = {
                   "against its defining equations.  Not covered: rank-deficient GLS systems and diffuse methods other than fixed_unknown, float rounding, "
                   "differences below 1e-7 relative.",
 }
+
+
+def translate(ctx):
+    trm.run()
 
 
 def correspondence(ctx) -> CorrResult:
